@@ -92,6 +92,36 @@ func c14Patterns(g *gen.G, r interface{ IntN(int) int }, recs []fsx.Rec) []strin
 			pats = append(pats, strings.Join(parts, "/"))
 		}
 	}
+	// escapes without any other metacharacter (in the last component, in the directory part, in both; trailing backslash)
+	esc := func(name string) string {
+		if name == "" {
+			return name
+		}
+		k := r.IntN(len(name))
+		return name[:k] + "\\" + name[k:]
+	}
+	for i := 0; i < 8 && len(recs) > 0; i++ {
+		parts := strings.Split(recs[r.IntN(len(recs))].Path, "/")
+		if len(parts) < 2 {
+			continue
+		}
+		switch r.IntN(4) {
+		case 0:
+			parts[len(parts)-1] = esc(parts[len(parts)-1])
+		case 1:
+			j := 1 + r.IntN(len(parts)-1)
+			parts[j] = esc(parts[j])
+		case 2:
+			for j := 1; j < len(parts); j++ {
+				parts[j] = esc(parts[j])
+			}
+		default:
+			parts[1] = esc(parts[1])
+			parts[len(parts)-1] = "*"
+		}
+		pats = append(pats, strings.Join(parts, "/"))
+	}
+	pats = append(pats, "/w/a\\", "/w\\/a", "/w/\\zz", "\\w")
 	return pats
 }
 
@@ -271,7 +301,7 @@ func init() {
 		Shards: shards(12, 16),
 		Meta: func(tier string) rt.Meta {
 			return rt.Meta{Level: "exploration", MinEvals: 5000, MinDistinct: 50,
-				Rule:        "random trees of 5-45 nodes built in lockstep on the emulated file system and on the kernel (verified equal before use; MemFS trees contain symbolic links, incl. links to directories and dangling ones); on each tree: ~40 glob patterns (names of the tree with components replaced by *, ?, classes, negated classes, escapes, malformed patterns, doubled and trailing separators, relative patterns) against filepath.Glob; ReadDir of every directory (names, order, types) against os.ReadDir; WalkDir from several roots with the callback returning SkipDir / SkipAll / an error at EVERY visit index (exhaustive per tree) against filepath.WalkDir (visit sequence with types and error arguments, and return value); Exists/DirExists/IsDir/IsEmpty against Stat/ReadDir of the same file system. File systems: MemFS, OrefaFS, RoFS and FailFS over them, BasePathFS over MemFS. Signature = file system | function | pattern or cut-point class | outcome; non-trivial = at least one match / a real cut point.",
+				Rule:        "random trees of 5-45 nodes built in lockstep on the emulated file system and on the kernel (verified equal before use; MemFS trees contain symbolic links, incl. links to directories and dangling ones); on each tree: ~40 glob patterns (names of the tree with components replaced by *, ?, classes, negated classes, escapes (also escape-only patterns without any other metacharacter), malformed patterns, doubled and trailing separators, relative patterns) against filepath.Glob; ReadDir of every directory (names, order, types) against os.ReadDir; WalkDir from several roots with the callback returning SkipDir / SkipAll / an error at EVERY visit index (exhaustive per tree) against filepath.WalkDir (visit sequence with types and error arguments, and return value); Exists/DirExists/IsDir/IsEmpty against Stat/ReadDir of the same file system. File systems: MemFS, OrefaFS, RoFS and FailFS over them, BasePathFS over MemFS. Signature = file system | function | pattern or cut-point class | outcome; non-trivial = at least one match / a real cut point.",
 				Assumptions: []string{"unreadable directories for a non-administrator are covered by the random part of C03 (ReadDir) and not re-walked here"}}
 		},
 		Timeout: func(tier string) int {
